@@ -133,7 +133,7 @@ PROPS["C02"] = {
     "level_note": "One real instance + environment; reductions R1/R2; bounded windows.",
 }
 PROPS["C01"] = {
-    "groups": [{"run": "^vpH_C01_T_|^vpH_C10_T_safety$|^vpH_C08_T_causes$|^vpH_C09_T_stop_leader$|^vpH_C07_T_leftover$|^vpH_C05_T_(terms|late_create)$|^vpH_C13_T_rewrite$"}],
+    "groups": [{"run": "^vpH_C01_T_|^vpH_C10_T_(safety|late_round_sees_preemptor)$|^vpH_C08_T_causes$|^vpH_C09_T_stop_leader$|^vpH_C07_T_leftover$|^vpH_C05_T_(terms|late_create)$|^vpH_C13_T_rewrite$"}],
     "bounds": {"quick": "every successful mutation issued by the real instance in the scenario families C01 (leader preempted by a priority-9 participant and shut down with DeleteKey, both at explorer-chosen store-visible points; takeover-enabled leader with watcher and acquisition rounds around it preempted at any point), C10 safety (symbolic priorities, interfering third party), C08 (every cause of term end, two terms), C09 (stop variants at every point), C07 (vacancy during a leftover round) is audited against the four allowed forms over the store's complete mutation log; every operation's key argument must equal the group; static cross-check that every function containing a KeyValue.Create/Update/Delete call site was executed"},
     "outside": "several groups in one bucket run concurrently (the key argument is checked per operation instead); more than one real instance (environment writers obey the guarantee being checked)",
     "assumptions": [],
